@@ -22,6 +22,9 @@ def main():
     if '--only' in sys.argv:
         only = set(sys.argv[sys.argv.index('--only') + 1].split(','))
     out = {}
+    res_path = os.path.join(VERIF, 'selftest', 'reverts.json')
+    if only and os.path.exists(res_path):
+        out = json.load(open(res_path))
     for f in sorted(glob.glob(os.path.join(VERIF, 'selftest', 'mutants',
                                            'revert-*.patch'))):
         name = os.path.basename(f)[len('revert-'):-len('.patch')]
